@@ -55,7 +55,7 @@ def _run_one(h, twin, timeout_s):
     except Exception as e:
         tb = traceback.extract_tb(e.__traceback__)
         in_repo = [t for t in tb if t.filename.startswith(core.REPO)]
-        if in_repo and run.obligations:
+        if in_repo:
             # code of /repo raised where the contract's harness calls it directly: that is a failed obligation, not a checker crash
             ob = core.Obligation()
             ob.kind, ob.sig, ob.model, ob.replay, ob.note = 'post', '-', None, None, None
